@@ -441,6 +441,11 @@ impl Workload for SchedWorkload {
                 let mut o = GenomeOpts::swarm(&mut rng, k);
                 o.len = rng.range(6 * k, 6 * k + if tier == Tier::Quick { 250 } else { 700 });
                 o.snp_sites = rng.range(2, 10);
+                o.long_repeats = rng.chance(35);
+                if o.long_repeats {
+                    o.len += 4 * k;
+                    o.snp_sites += 4;
+                }
                 o.n_runs = false;
                 o.revcomp_records = rng.chance(30);
                 let mut all = gen_samples(&mut rng, n + 1, k, &o, "s");
